@@ -61,7 +61,7 @@ Definition write_unit (w : N) (cells : list cell) (sync : bool) : list pevent :=
 
 (* commit 1 into 00001.mem, rotation to 00002.mem (pinned: no directory fsync) *)
 Definition tr_rotate (sync dirsync : bool) : list pevent :=
-  write_unit 1 [k1v1] sync ++ [PE (Create (Wal 2)); PE (Init (Wal 2))]
+  write_unit 1 [k1v1] sync ++ [PSeal; PE (Create (Wal 2)); PE (Init (Wal 2))]
   ++ (if dirsync then [PE SyncDir] else []).
 
 (* F9 (a): one more acknowledged commit into the new WAL, then power loss *)
@@ -86,7 +86,7 @@ Definition tr_zero_wal_delete : list pevent :=
   tr_flush false ++ [PE (Truncate0 (Wal 1))].
 (* killed between openat(O_CREAT) and ftruncate of a new WAL *)
 Definition tr_zero_wal_create : list pevent :=
-  write_unit 1 [k1v1] false ++ [PE (Create (Wal 2))].
+  write_unit 1 [k1v1] false ++ [PSeal; PE (Create (Wal 2))].
 
 (* a longer accepted trace used as a satisfiability example: two commits (one with a vlog
    value), rotation, flush, WAL deletion, a second flush and a compaction of both tables *)
@@ -95,17 +95,18 @@ Definition tr_example (c : cfg) : list pevent :=
   let sy (f : fname) := if sync_writes c then [PE (SyncFile f)] else [] in
   [PE (Append (Vlog 1) (IV big3))] ++ sy (Vlog 1)
   ++ write_unit 1 [k1v1; (big3, Some (mkVP 1 0))] (sync_writes c)
-  ++ [PE (Create (Wal 2)); PE (Init (Wal 2))] ++ ds
+  ++ [PSeal; PE (Create (Wal 2)); PE (Init (Wal 2))] ++ ds
   ++ write_unit 2 [k1v2; k2v2] (sync_writes c)
   ++ [PE (Create (Sst 1)); PE (Init (Sst 1)); PE (Append (Sst 1) (IT (big3, Some (mkVP 1 0))));
       PE (Append (Sst 1) (IT k1v1)); PE (SyncFile (Sst 1))] ++ ds
   ++ [PE (Append Manifest (IM [MCreate 1 0])); PE (SyncFile Manifest);
-      PE (Truncate0 (Wal 1)); PE (Unlink (Wal 1));
-      PE (Create (Wal 3)); PE (Init (Wal 3))] ++ ds
+      PE (Truncate0 (Wal 1)); PE (Unlink (Wal 1)); PSeal]
+  (* the flusher may record the sealed WAL's table before the next WAL exists *)
   ++ [PE (Create (Sst 2)); PE (Init (Sst 2)); PE (Append (Sst 2) (IT k1v2)); PE (Append (Sst 2) (IT k2v2));
       PE (SyncFile (Sst 2))] ++ ds
   ++ [PE (Append Manifest (IM [MCreate 2 0])); PE (SyncFile Manifest);
-      PE (Create (Sst 3)); PE (Init (Sst 3)); PE (Append (Sst 3) (IT k1v2)); PE (Append (Sst 3) (IT k2v2));
+      PE (Create (Wal 3)); PE (Init (Wal 3))] ++ ds
+  ++ [PE (Create (Sst 3)); PE (Init (Sst 3)); PE (Append (Sst 3) (IT k1v2)); PE (Append (Sst 3) (IT k2v2));
       PE (Append (Sst 3) (IT (big3, Some (mkVP 1 0)))); PE (SyncFile (Sst 3)); PE SyncDir;
       PE (Append Manifest (IM [MCreate 3 1; MDelete 1; MDelete 2])); PE (SyncFile Manifest);
       PE (Truncate0 (Sst 1)); PE (Unlink (Sst 1)); PE (Unlink (Sst 2)); PE (Unlink (Wal 2))].
